@@ -30,5 +30,5 @@ propagator(REG, "nucs/propagators/element_liv_propagator.py::compute_domains_ele
 
 define("lexleq(T, p)", "forall(k, 0, p, implies(forall(j, 0, k, T[j] == T[p + j]), T[k] <= T[p + k]))")
 propagator(REG, "nucs/propagators/lexicographic_leq_propagator.py::compute_domains_lexicographic_leq",
-    rel="lexleq(@T, n // 2)", n_min=2, requires=["n % 2 == 0", "m == 0"],
+    rel="lexleq(@T, n // 2)", n_min=2, requires=["n % 2 == 0", "m == 0"], props=["C05", "C06", "C07", "C14", "C16", "C01", "C08", "C04"],
     unroll_only=True, arities=[{"n": a, "m": 0} for a in (2, 4, 6)])
